@@ -110,25 +110,23 @@ func (tx *Tx) Commit() error {
 }
 
 func (tx *Tx) beforeCommit() {
-	if len(txHooks) != 0 {
-		hl.RLock()
-		defer hl.RUnlock()
+	hl.RLock()
+	defer hl.RUnlock()
 
-		for i := range txHooks {
-			txHooks[i].BeforeCommit(tx)
-		}
+	for i := range txHooks {
+		txHooks[i].BeforeCommit(tx)
 	}
 }
 
 func (tx *Tx) Rollback() error {
-	if len(txHooks) != 0 {
+	func() {
 		hl.RLock()
 		defer hl.RUnlock()
 
 		for i := range txHooks {
 			txHooks[i].BeforeRollback(tx)
 		}
-	}
+	}()
 
 	// an XA branch has no driver transaction of its own (Conn.BeginTx passes a nil origin): it is
 	// ended with XA END / XA ROLLBACK on the connection
